@@ -8,6 +8,7 @@ import (
 	"strings"
 
 	"cuelang.org/go/cue"
+	"cuelang.org/go/cue/ast"
 	"cuelang.org/go/cue/cuecontext"
 	"cuelang.org/go/cue/token"
 )
@@ -15,7 +16,7 @@ import (
 // sigTokens: the significant tokens of a source as comparable keys: operators, keywords and
 // punctuation by kind, identifiers by name, literals by kind only (the formatter may re-spell
 // them: re-indented strings, 1E3 -> 1e3).  Comments and commas are left out.
-func sigTokens(src []byte) ([]string, bool) {
+func sigTokens(src []byte, simplify bool) ([]string, bool) {
 	toks, ok := c08Tokens(src)
 	if !ok {
 		return nil, false
@@ -28,6 +29,12 @@ func sigTokens(src []byte) ([]string, bool) {
 		case token.IDENT:
 			out = append(out, "id:"+string(src[t.off:t.end]))
 		case token.INT, token.FLOAT, token.STRING, token.INTERPOLATION:
+			if w := string(src[t.off:t.end]); simplify && t.tok == token.STRING && len(w) > 2 && w[0] == '"' && w[len(w)-1] == '"' &&
+				!strings.ContainsAny(w[1:len(w)-1], "\\\"") && !ast.StringLabelNeedsQuoting(w[1:len(w)-1]) {
+				// -s may print the label "foo" as foo (documented simplification)
+				out = append(out, "id:"+w[1:len(w)-1])
+				continue
+			}
 			out = append(out, "lit:"+t.tok.String())
 		case token.ATTRIBUTE:
 			out = append(out, "attr:"+string(src[t.off:t.end]))
@@ -42,9 +49,9 @@ func sigTokens(src []byte) ([]string, bool) {
 // may have been LOST (swallowed by a comment, doubled parentheses collapsed) but none was altered,
 // added or reordered.  A tree change in which an operator, identifier, literal kind or attribute
 // differs is never explained by comment handling.
-func c08OnlyLostTokens(in, out []byte, ordered bool) bool {
-	a, ok1 := sigTokens(in)
-	b, ok2 := sigTokens(out)
+func c08OnlyLostTokens(in, out []byte, ordered, simplify bool) bool {
+	a, ok1 := sigTokens(in, simplify)
+	b, ok2 := sigTokens(out, simplify)
 	if !ok1 || !ok2 {
 		return false
 	}
